@@ -1289,7 +1289,13 @@ fn random_ext(rng: &mut Rng, depth: u32, locals: usize) -> AstNode {
       let typed = rng.chance(1, 3);
       let t = if typed { type_node(rng, 1, true) } else { AstNode::FeelType(FeelType::Any) };
       let ps = vec![AstNode::FormalParameter(Box::new(AstNode::ParameterName(Name::from(LOCALS[locals]))), Box::new(t))];
-      AstNode::FunctionDefinition(Box::new(AstNode::FormalParameters(ps)), Box::new(AstNode::FunctionBody(Box::new(random_ext(rng, d, locals + 1)), false)))
+      if rng.chance(1, 4) {
+        // a function whose body is external: `function(p) external { … }` (the flag of the body must survive)
+        let ctx = AstNode::Context(vec![AstNode::ContextEntry(Box::new(AstNode::ContextEntryKey(Name::from("k"))), Box::new(random_ext(rng, d.min(1), locals + 1)))]);
+        AstNode::FunctionDefinition(Box::new(AstNode::FormalParameters(ps)), Box::new(AstNode::FunctionBody(Box::new(ctx), true)))
+      } else {
+        AstNode::FunctionDefinition(Box::new(AstNode::FormalParameters(ps)), Box::new(AstNode::FunctionBody(Box::new(random_ext(rng, d, locals + 1)), false)))
+      }
     }
     23 | 24 => {
       let n = rng.below(4);
